@@ -1,3 +1,4 @@
+pub mod c01;
 pub mod c02;
 pub mod c03;
 pub mod c04;
@@ -7,6 +8,7 @@ pub mod c07;
 pub mod c08;
 pub mod c09;
 pub mod c10;
+pub mod c11;
 pub mod c19;
 pub mod c20;
 
@@ -27,6 +29,7 @@ const BASE_ASSUME: &[&str] = &[
 
 pub fn registry(id: &str) -> Option<Entry> {
     Some(match id {
+        "C01" => Entry { run: c01::run, replay: c01::replay, rule: "state = a TwoFloat value (128 bits, NaN canonicalised); initial states = alphabets (depth 1) and seeds (chains); transition = one public API call on the real crate; invariant on every produced value: valid (hi == RN(hi+lo), both finite) or non-finite high word; breadth-first with exact-state deduplication", assumptions: BASE_ASSUME },
         "C02" => Entry { run: c02::run, replay: c02::replay, rule: "state = ordered pair of f64 bit patterns from the stated alphabet; transition = one constructor call on the real crate judged exactly (long accumulator) against the error-free-transformation specification; distinct by operand bits", assumptions: BASE_ASSUME },
         "C03" => Entry { run: c03::run, replay: c03::replay, rule: "state = ordered operand pair (unit alphabets scaled to every (e0, e0+delta)) or an item sequence for sum; transition = one +,-,+=,-= or sum call on the real crate; judged by exact comparison |r-(a±b)| * 2^159 <= (k*2^53+c)|a±b|", assumptions: BASE_ASSUME },
         "C04" => Entry { run: c04::run, replay: c04::replay, rule: "state = ordered operand pair; transition = one *, *= call in each operand typing; judged by exact comparison |r-ab| 2^106 <= k|ab| and the exactness clauses (zero, +-1, 2^j)", assumptions: BASE_ASSUME },
@@ -36,6 +39,7 @@ pub fn registry(id: &str) -> Option<Entry> {
         "C08" => Entry { run: c08::run, replay: c08::replay, rule: "state = one valid operand; transition = floor/ceil/trunc/round/fract (inherent and num_traits::Float); judged against exact integer arithmetic on hi+lo", assumptions: BASE_ASSUME },
         "C09" => Entry { run: c09::run, replay: c09::replay, rule: "state = one integer value of one of the ten types, one TwoFloat, or one f32; transition = every conversion route (From / TryFrom by value and by reference / ToPrimitive / NumCast / FromPrimitive); judged against exact integer arithmetic", assumptions: BASE_ASSUME },
         "C10" => Entry { run: c10::run, replay: c10::replay, rule: "state = ordered operand pair (valid and reachable non-finite) or a single operand; transition = every spelling of the operation (value/reference/assignment, operand typings, trait vs inherent); oracle = the other spelling, bit-identical words (NaN == NaN; algebraic identities modulo the sign of zero words)", assumptions: BASE_ASSUME },
+        "C11" => Entry { run: c11::run, replay: c11::replay, rule: "state = operand tuple; transition = the same public API call executed in both build configurations linked into one binary (crate twofloat with default features / the same sources compiled as tf_nostd with --no-default-features --features math_funcs); oracle = the other configuration, bit-identical words (NaN == NaN), plus exactness of new_mul's low word in both", assumptions: &["rustc/LLVM, IEEE-754 hardware", "compiling /repo/src/lib.rs a second time under another crate name with features {math_funcs} is the no_std configuration (same cfg evaluation as --no-default-features --features math_funcs)", "the libm crate flavour in use is stated in coverage.notes"] },
         "C19" => Entry { run: c19::run, replay: c19::replay, rule: "state = ordered operand pair; transition = one of the five spellings of %, div_euclid, rem_euclid; judged against the exact truncated / floored integer quotient (binary long division in the long accumulator) with the stated tolerance and near-integer proviso", assumptions: BASE_ASSUME },
         "C20" => Entry { run: c20::run, replay: c20::replay, rule: "text: state = one valid value, transitions = 54 format calls (3 traits x {plain,+} x 9 precisions) compared with std's f64 renderings and parsed back; serde: state = one environment script (sequence or map the data format offers the visitor, built with serde::de::value deserializers) or one valid value serialised through a recording Serializer; oracle = 20-line acceptance predicate using the exact validity test", assumptions: &["rustc/LLVM, IEEE-754 hardware", "std's f64 formatting and parsing are correct (used as the text oracle)", "serde::de::value::{SeqDeserializer, MapDeserializer} behave as a faithful data format", "tfref::big exact validity predicate"] },
         _ => return None,
